@@ -1,19 +1,56 @@
-"""Fresh-interpreter child for crash-restart restores (F7).
+"""Pristine-process server (F7: crash-restart, "a process that never saw ...").
 
-A long-lived child process that never saw the writer's objects: it receives
-only the bytes that survived on the simulated disk, installs them in its own
-SimFS, restores the model from the path with the real library, and answers
-with the canonical dump and the outcome of evaluating every cell.
+A long-lived *template* process imports the library and the harness but never
+builds a model.  Every request is served by a fork of that template which
+exits afterwards, so each answer comes from an interpreter state that has
+seen nothing but the request: no writer objects, no earlier workbook, no
+module-level cache filled by an earlier case.
 
 Protocol: one JSON object per line on stdin / stdout.
-  request  {path, data(b64), build_code, bufsize, short_seed, seed}
-  response {ok, dump, values} | {ok: false, exc}
+  {kind: 'restore',   path, data(b64), build_code, bufsize, short_seed, seed}
+      -> {ok, dump, values}
+  {kind: 'load_xlsx', path, data(b64), ignore, seed}
+      -> {ok, dump, values}
+  {kind: 'twin_eval', world, cells, targets, tag, max_empty, seed}
+      -> {ok, outcomes}
 """
 import base64
 import json
 import os
 import subprocess
 import sys
+
+
+def handle(req):
+    from dsim import seams, worlds
+    from dsim.canon import dump_model, outcome_of
+    from dsim.props import c12
+    kind = req.get('kind', 'restore')
+    with seams.Ambient(req.get('seed', 0)):
+        if kind == 'twin_eval':
+            from xlcalculator import Evaluator, ast_nodes
+            ast_nodes.MAX_EMPTY = req.get('max_empty', 100)
+            model = worlds.world_model(req['world'], cells=req['cells'])
+            ev = Evaluator(model, seams.UserFuncs(None).namespace(
+                tag=req.get('tag', 0)))
+            return {'ok': True, 'outcomes': {
+                t: outcome_of(ev.evaluate, t) for t in req['targets']}}
+        fs = seams.SimFS()
+        fs.put(req['path'], base64.b64decode(req['data']))
+        seams.install_fs(fs)
+        try:
+            fs.reset_op(bufsize=req.get('bufsize'),
+                        short_seed=req.get('short_seed'))
+            if kind == 'load_xlsx':
+                from xlcalculator import ModelCompiler
+                model = ModelCompiler().read_and_parse_archive(
+                    req['path'], ignore_sheets=list(req.get('ignore', [])))
+                return {'ok': True, 'dump': dump_model(model),
+                        'values': c12.evaluate_all(model)}
+            return c12.restore_and_observe(
+                req['path'], req.get('build_code', True))
+        finally:
+            seams.uninstall_fs()
 
 
 def serve():
@@ -23,29 +60,27 @@ def serve():
     warnings.filterwarnings('ignore')
     import logging
     logging.disable(logging.CRITICAL)
-    from dsim import seams, canon
-    from dsim.props import c12
-    out = sys.stdout
-    sys.stdout = sys.stderr       # nothing else may write to the pipe
+    # import everything a request can need, build nothing
+    from dsim import seams, canon, worlds  # noqa
+    from dsim.props import c12              # noqa
+    import xlcalculator                     # noqa
+    import openpyxl                         # noqa
+    out_fd = os.dup(1)
+    os.dup2(2, 1)                 # nothing else may write to the pipe
     for line in sys.stdin:
-        req = json.loads(line)
-        try:
-            fs = seams.SimFS()
-            fs.put(req['path'], base64.b64decode(req['data']))
-            seams.install_fs(fs)
+        pid = os.fork()
+        if pid == 0:
             try:
-                with seams.Ambient(req.get('seed', 0)):
-                    fs.reset_op(bufsize=req.get('bufsize'),
-                                short_seed=req.get('short_seed'))
-                    resp = c12.restore_and_observe(
-                        req['path'], req.get('build_code', True))
+                try:
+                    resp = handle(json.loads(line))
+                except BaseException as e:      # noqa
+                    resp = {'ok': False, 'exc': type(e).__name__,
+                            'msg': str(e)[:300]}
+                os.write(out_fd, (json.dumps(resp, sort_keys=True,
+                                             default=str) + '\n').encode())
             finally:
-                seams.uninstall_fs()
-        except BaseException as e:      # noqa
-            resp = {'ok': False, 'exc': type(e).__name__,
-                    'msg': str(e)[:300]}
-        out.write(json.dumps(resp, sort_keys=True) + '\n')
-        out.flush()
+                os._exit(0)
+        os.waitpid(pid, 0)
 
 
 class Child:
@@ -68,23 +103,41 @@ class Child:
 
     @classmethod
     def get(cls):
-        if cls._inst is None or cls._inst.proc.poll() is not None \
-                or cls._inst.pid != os.getpid():
+        # a server started by the worker is inherited by (and shared with)
+        # the case processes it forks; they run one at a time
+        if cls._inst is None or (cls._inst.pid == os.getpid()
+                                 and cls._inst.proc.poll() is not None):
             cls._inst = cls()
             cls._inst.pid = os.getpid()
         return cls._inst
 
-    def restore(self, path, data, build_code, bufsize=None, short_seed=None,
-                seed=0):
-        req = {'path': path, 'data': base64.b64encode(data).decode(),
-               'build_code': build_code, 'bufsize': bufsize,
-               'short_seed': short_seed, 'seed': seed}
-        self.proc.stdin.write(json.dumps(req) + '\n')
+    def request(self, req):
+        self.proc.stdin.write(json.dumps(req, default=str) + '\n')
         self.proc.stdin.flush()
         line = self.proc.stdout.readline()
         if not line:
-            raise RuntimeError('restorer child died')
+            raise RuntimeError('pristine-process server died')
         return json.loads(line)
+
+    def restore(self, path, data, build_code, bufsize=None, short_seed=None,
+                seed=0):
+        return self.request({
+            'kind': 'restore', 'path': path,
+            'data': base64.b64encode(data).decode(),
+            'build_code': build_code, 'bufsize': bufsize,
+            'short_seed': short_seed, 'seed': seed})
+
+    def load_xlsx(self, path, data, ignore, seed=0):
+        return self.request({
+            'kind': 'load_xlsx', 'path': path,
+            'data': base64.b64encode(data).decode(),
+            'ignore': list(ignore), 'seed': seed})
+
+    def twin_eval(self, world, cells, targets, tag=0, max_empty=100, seed=0):
+        return self.request({
+            'kind': 'twin_eval', 'world': world, 'cells': cells,
+            'targets': list(targets), 'tag': tag, 'max_empty': max_empty,
+            'seed': seed})
 
     @classmethod
     def shutdown(cls):
